@@ -522,6 +522,17 @@ def removalAttrs (cfg : Config) : Attrs :=
   { name := cfg.cookie.name, domain := cfg.cookie.domain, path := cfg.cookie.path,
     secure := false, httpOnly := false, sameSite := none, maxAge := none }
 
+/-- A cookie in `ResponseCookies`. -/
+inductive OutCookie (κ ν : Type) where
+  | value (id : Nat) (client : Map κ ν) (attrs : Attrs)
+  | removal (attrs : Attrs)
+
+/-- `response_cookies` after `finalize_session`: the only `insert` is on the success path. -/
+def respond {κ ν : Type} (cfg : Config) (rc : List (OutCookie κ ν)) : Fin κ ν → List (OutCookie κ ν)
+  | .set id c => rc ++ [.value id c (setAttrs cfg)]
+  | .removal => rc ++ [.removal (removalAttrs cfg)]
+  | _ => rc
+
 def hexDigit (n : Nat) : Char := if n < 10 then Char.ofNat (48 + n) else Char.ofNat (55 + n)
 
 /-- biscotti `encoding.rs`: the `COOKIE` percent-encode set (controls, non-ASCII, and the listed ASCII). -/
